@@ -1,0 +1,22 @@
+//go:build verif
+
+package postgresql
+
+// Add-only hooks for the verification harness (/verif, check C12, family "message rewritten in place"):
+// a query observer can be registered on the connection-less proxy state of export_verif_s14.go, and the
+// capacity of the handler's packet buffer can be read (the harness aims rewrites at that boundary and
+// records on which side of it every case fell). No behaviour is changed; compiled only with -tags verif.
+
+import (
+	"github.com/cossacklabs/acra/encryptor/postgresql"
+)
+
+// VerifS32AddQueryObserver registers a query observer the way NewPgProxy's callers do.
+func (p *VerifS14Proxy) VerifS32AddQueryObserver(obs postgresql.QueryObserver) {
+	p.proxy.AddQueryObserver(obs)
+}
+
+// VerifS32BufferCap returns the capacity of the buffer that holds the payload of the packet read last.
+func (packet *PacketHandler) VerifS32BufferCap() int {
+	return packet.descriptionBuf.Cap()
+}
